@@ -19,6 +19,7 @@ import (
 
 	"slices"
 
+	"github.com/sourcenetwork/defradb/acp/dac"
 	"github.com/sourcenetwork/defradb/acp/identity"
 	"github.com/sourcenetwork/defradb/client"
 	"github.com/sourcenetwork/defradb/client/request"
@@ -332,11 +333,13 @@ func (c *collection) iterateAllDocs(
 ) error {
 	txn := datastore.CtxMustGetTxn(ctx)
 	df := c.newFetcher()
+	// Index maintenance must see every document, whoever asked for the index: a document that the
+	// caller of CreateIndex may not read still needs its entry.
 	err := df.Init(
 		ctx,
-		identity.FromContext(ctx),
+		immutable.None[identity.Identity](),
 		txn,
-		c.db.documentACP,
+		immutable.None[dac.DocumentACP](),
 		immutable.None[client.IndexDescription](),
 		c,
 		fields,
